@@ -1,5 +1,5 @@
 From Coq Require Import Extraction ExtrOcamlBasic.
-From PV Require Import Base.Bytes Base.Outcome Base.Varint Base.DrvBase Gen.GenTxConsts Model.TxWire.
+From PV Require Import Base.Bytes Base.Outcome Base.Varint Base.DrvBase Gen.GenTxConsts Model.TxWire Model.TxCheck Model.TxObject.
 Extraction "../ml/c07.ml" drv_base
   parse_varint stream_varint put_varint parse_varstr stream_varstr parse_satoshi_int
   parse_struct stream_struct
@@ -8,4 +8,5 @@ Extraction "../ml/c07.ml" drv_base
   missing_unspents missing_unspent has_witness_data
   tx_hash tx_w_hash tx_blanked_hash tx_id tx_w_id
   stream_spendable parse_spendable spendable_from_bin spendable_as_dict spendable_from_dict
-  spendable_as_text_fields spendable_from_text_fields b2h h2b b2h_rev h2b_rev.
+  spendable_as_text_fields spendable_from_text_fields b2h h2b b2h_rev h2b_rev
+  run observe apply_mut state_after.
